@@ -26,6 +26,9 @@ type closedScn struct {
 	Callbacks int    `json:"callbacks"` // 0 none, 1 OnRequest, 2 OnConnect+OnRequest
 	Method    string `json:"method"`
 	Repeat    int    `json:"repeat"`
+	// BigPrior: long before the close the peer sent 9000 bytes at once (more than a page: the connection's
+	// buffer bookkeeping - maxSize, tail reset - leaves its small-packet regime) and they were read and released
+	BigPrior  bool   `json:"big_prior,omitempty"`
 	PriorWait bool   `json:"prior_wait,omitempty"` // a read timeout is set and one Reader call really waited before the close (no-callback connections)
 }
 
@@ -43,7 +46,7 @@ var (
 )
 
 func closedSpace() int {
-	return len(closedModes) * len(closedInputs) * 2 * 3 * len(closedMethods) * 2 * 2
+	return len(closedModes) * len(closedInputs) * 2 * 3 * len(closedMethods) * 2 * 2 * 2
 }
 
 func closedFromIndex(i int) closedScn {
@@ -61,6 +64,8 @@ func closedFromIndex(i int) closedScn {
 	s.Mode = closedModes[i%len(closedModes)]
 	i /= len(closedModes)
 	s.PriorWait = i%2 == 1
+	i /= 2
+	s.BigPrior = i%2 == 1
 	return s
 }
 
@@ -85,9 +90,20 @@ func runClosed(t *rapid.T, s closedScn, replay []vs.Step) *closedOutcome {
 	o.c = c
 	opts := &options{}
 	handlerRuns := 0
+	bigSeen := 0
 	if s.Callbacks >= 1 {
 		opts.onRequest = func(ctx context.Context, conn Connection) error {
 			handlerRuns++
+			if s.BigPrior && bigSeen < 9000 {
+				// the big packet is taken only when it is complete, so that more than a page is buffered at once
+				// (a slow handler: the poller goes on filling the buffer meanwhile)
+				vs.WaitFor(-75, func() bool { return conn.Reader().Len() >= 9000 })
+				n := conn.Reader().Len()
+				bigSeen += n
+				conn.Reader().Skip(n)
+				conn.Reader().Release()
+				return nil
+			}
 			// a handler must read everything or close: with unread input wanted at close time it closes
 			if s.Input > 0 && (s.Mode == "user" || s.Mode == "detach") {
 				if s.Mode == "detach" {
@@ -126,17 +142,29 @@ func runClosed(t *rapid.T, s closedScn, replay []vs.Step) *closedOutcome {
 			}
 			c.Reader().Release()
 		}
+		if s.BigPrior {
+			syscall.Write(wfd, keyedBytes(100000, 9000))
+			if s.Callbacks == 0 {
+				if p, err := c.Reader().Next(9000); err != nil || len(p) != 9000 {
+					o.setupBad = fmt.Sprintf("the prior big read failed: %v", err)
+				}
+				c.Reader().Release()
+			} else {
+				vs.WaitFor(-74, func() bool { return bigSeen >= 9000 && c.inputBuffer.Len() == 0 })
+			}
+		}
 		if s.Output {
 			if p, err := c.Writer().Malloc(10); err == nil {
 				copy(p, "unflushed!")
 			}
 		}
 		if s.Input > 0 {
+			before := handlerRuns
 			syscall.Write(wfd, keyedBytes(0, s.Input))
 			if s.Callbacks == 0 {
 				vs.WaitFor(-70, func() bool { return c.inputBuffer.Len() >= s.Input })
 			} else {
-				vs.WaitFor(-70, func() bool { return handlerRuns > 0 })
+				vs.WaitFor(-70, func() bool { return handlerRuns > before })
 			}
 		}
 		switch s.Mode {
@@ -189,6 +217,15 @@ func runClosed(t *rapid.T, s closedScn, replay []vs.Step) *closedOutcome {
 			}()
 			vs.Yield(-72)
 		}
+		// "Close is idempotent in any order": whatever was called before, a final Close returns
+		func() {
+			defer func() {
+				if p := recover(); p != nil {
+					o.panics = append(o.panics, "final Close: "+fmt.Sprint(p))
+				}
+			}()
+			c.Close()
+		}()
 	})
 	parked, livelock = w.run(30000)
 	o.livelock = livelock
@@ -467,6 +504,7 @@ func TestVerifC12(t *testing.T) {
 			Method:    rapid.SampledFrom(closedMethods).Draw(t, "method"),
 			Repeat:    rapid.IntRange(1, 2).Draw(t, "repeat"),
 			PriorWait: rapid.Bool().Draw(t, "priorwait"),
+			BigPrior:  rapid.Bool().Draw(t, "bigprior"),
 		}
 		if sig, msg := closedRun("C12", s, t, st, "rapid:C12"); sig != "" {
 			t.Fatalf("C12 violated [%s]: %s\nscenario: %+v", sig, msg, s)
